@@ -457,7 +457,15 @@ func genSam(r *Rand, sp samSpec) *SamCase {
 				}
 				if p < b && ins[p] != "" && !(sp.InsDisjoint && usedIns[p]) {
 					usedIns[p] = true
-					add('I', len(ins[p]))
+					if n := len(ins[p]); n >= 2 && r.P(0.12) {
+						// the same insertion written as two I operations around a padding operation (padded SAM)
+						k := r.Range(1, n-1)
+						add('I', k)
+						add('P', r.Range(1, 2))
+						add('I', n-k)
+					} else {
+						add('I', n)
+					}
 					seq = append(seq, ins[p]...)
 					if r.P(0.1) {
 						add('P', r.Range(1, 2))
